@@ -17,7 +17,8 @@ from pv.core import env
 ID = 'C17'
 LEVEL = 'exploration'
 TECHNIQUE = ('runtime monitor on the real sample generator: generated RuleDefault lists with hostile descriptions; output '
-             're-read with PyYAML / json / Rules.load and compared with the registered defaults')
+             're-read with PyYAML / json / Rules.load and compared with the registered defaults; two overlapping generations under a '
+             'deterministic two-thread scheduler')
 RULE = ('cases = lists of 1-6 RuleDefault / DocumentedRuleDefault objects (plain, documented with operations and scope '
         'types, deprecated for removal, renamed, changed default under the same name); names and check strings over the '
         'rule alphabet incl. single-quoted literals, %(key)s, #, colons, non-ASCII (printable, no double quote / backslash); '
@@ -25,7 +26,10 @@ RULE = ('cases = lists of 1-6 RuleDefault / DocumentedRuleDefault objects (plain
         'leading whitespace (literal blocks), >70-column words, emoji; YAML and JSON output; with and without '
         'exclude-deprecated; defaults spread over 1-4 namespaces some of which register nothing; output written to a fresh path or '
         'over an existing longer file of an earlier run. Non-trivial = some description/reason contains a line break, a YAML-significant character or '
-        'an over-long word; distinct = distinct (defaults, options).')
+        'an over-long word; distinct = distinct (defaults, options). Stratum `overlap`: two generations with different sets of defaults '
+        '(yaml / json, file + file, file + standard output) run at the same time in one process as two threads under the deterministic scheduler, the first '
+        'pre-empted at sampled library line boundaries while the second runs to completion or up to one of its own boundaries (both in flight): each '
+        'sample must be byte for byte what the same generation yields when run alone, and that one is judged by the oracles above.')
 ASSUMPTIONS = ['rule lines are recognised by ^#" (pinned literally by the repository\'s GenerateSampleYAMLTestCase)',
                'operation paths, methods, scope types and deprecated_since are single-line printable strings (quantifier)',
                'the sample generator is driven with include_help on, as the console script does']
@@ -33,7 +37,8 @@ LEVEL_TEXT = ('Seeded sampling of default lists with an adversarial text generat
               'parsers and by the library loader. The description space is unbounded text, so adversarial sampling is the level.')
 LEVEL_NOTE = 'trusted: PyYAML and json as independent readers of the generated text'
 PLAN = {'quick': dict(shards=4, wall=120), 'thorough': dict(shards=16, wall=400)}
-MIN = {'evaluations': 1000, 'yaml_samples': 500, 'json_samples': 300, 'hostile_descriptions': 500, 'deprecated_entries': 300, 'multi_namespace_samples': 100, 'regenerated_over_existing_file': 100}
+MIN = {'evaluations': 1000, 'yaml_samples': 500, 'json_samples': 300, 'hostile_descriptions': 500, 'deprecated_entries': 300, 'multi_namespace_samples': 100, 'regenerated_over_existing_file': 100,
+       'overlapping_generations': 60, 'overlapping_generations.both_in_flight': 30}
 ANCHORS = ['oslo_policy.generator:_format_help_text', 'oslo_policy.generator:_format_rule_default_yaml',
            'oslo_policy.generator:_format_rule_default_json', 'oslo_policy.generator:_generate_sample',
            'oslo_policy.generator:_sort_and_format_by_section', 'oslo_policy.generator:generate_sample']
@@ -150,8 +155,15 @@ def check_case(ctx, case):
     if is_hostile:
         ctx.count('hostile_descriptions')
     ctx.count('deprecated_entries', sum(1 for s in case['specs'] if s['kind'] in ('removal', 'renamed', 'changed')))
-    if case['fmt'] == 'json':
-        ctx.count('json_samples')
+    ctx.count('json_samples' if case['fmt'] == 'json' else 'yaml_samples')
+    judge(ctx, case, case, text, expected)
+
+
+def judge(ctx, case, gen, text, expected):
+    """The statement's oracles on one generated text.  gen = the generation (specs, fmt) that produced it, case = the
+    replayable case the finding is reported under (the same thing for a single generation)."""
+    from oslo_policy import policy
+    if gen['fmt'] == 'json':
         try:
             got = json.loads(text)
         except Exception as e:
@@ -160,7 +172,6 @@ def check_case(ctx, case):
         if got != expected:
             ctx.violation('json-sample-not-the-default-mapping', case, {'expected': expected, 'observed': got})
         return
-    ctx.count('yaml_samples')
     lines = text.split('\n')
     for ln in lines:
         if ln.strip() and not ln.startswith('#'):
@@ -186,13 +197,168 @@ def check_case(ctx, case):
     try:
         mapping = yaml.safe_load(un)
     except Exception as e:
-        ctx.violation('uncommented-sample-not-valid-yaml', case, {'error': str(e)[:150], 'specs': case['specs']})
+        ctx.violation('uncommented-sample-not-valid-yaml', case, {'error': str(e)[:150], 'specs': gen['specs']})
         return
     if mapping != expected:
         ctx.violation('uncommented-sample-not-the-default-mapping', case, {'expected': expected, 'observed': mapping})
 
 
+OVERLAPS = {'quick': 4, 'thorough': 60}          # pairs of generations per shard
+OVERLAP_KS = {'quick': 10, 'thorough': 40}       # sampled pre-emption points of the first generation per pair
+OUTS = [('file', 'file'), ('file', 'stdout'), ('stdout', 'file')]
+KEY_OVERLAP = 'sample-depends-on-a-concurrent-generation'
+
+
+def gen_generation(rnd):
+    specs = [gen_default_spec(rnd, j) for j in range(rnd.randint(1, 4))]
+    g = dict(specs=specs, fmt='yaml' if rnd.random() < 0.6 else 'json', exclude=rnd.random() < 0.3)
+    if rnd.random() < 0.3:
+        take = rnd.randint(0, len(specs))
+        g['namespaces'] = [take, len(specs) - take]
+    return g
+
+
+def run_pair(case, plan, tmp, n):
+    """One execution of the two generations a / b of `case` (each the console entry generate_sample with its own defaults,
+    namespaces, options, ConfigOpts and output) as threads A / B under the scheduler.  The process's standard output is a
+    recorder for the duration; files go to fresh paths (number n) in the directory tmp.  -> ([sample a, sample b], [how a ended, how b ended], Run)"""
+    import io
+    import sys
+    import stevedore
+    from oslo_config import cfg
+    from oslo_policy import generator, policy
+    from pv.mon import sched
+    mgrs, funcs, paths = {}, {}, {}
+    for tag in ('a', 'b'):
+        g = case[tag]
+        defaults = [build_default(policy, s) for s in g['specs']]
+        split = g.get('namespaces') or [len(defaults)]
+        exts, pos = [], 0
+        for i, n in enumerate(split):
+            exts.append(stevedore.extension.Extension(name='pv%s%d' % (tag, i), entry_point=None, plugin=None, obj=defaults[pos:pos + n]))
+            pos += n
+        exts[-1].obj.extend(defaults[pos:])
+        names = [e.name for e in exts]
+        mgrs[tuple(names)] = stevedore.named.NamedExtensionManager.make_test_instance(exts, namespace=names)
+        args = ['--format', g['fmt']]
+        if g['out'] == 'file':
+            paths[tag] = os.path.join(tmp, 'sample-%d-%s.%s' % (n, tag, g['fmt']))
+            args += ['--output-file', paths[tag]]
+        for nm in names:
+            args += ['--namespace', nm]
+        if g['exclude']:
+            args.append('--exclude-deprecated')
+
+        def call(args=args):
+            try:
+                generator.generate_sample(args, conf=cfg.ConfigOpts())
+            except Exception as e:
+                return ['raised', type(e).__name__, str(e)[:120]]
+            return ['returned']
+        funcs[tag.upper()] = call
+    real_out, rec = sys.stdout, io.StringIO()
+    with mock.patch('stevedore.named.NamedExtensionManager', side_effect=lambda ns, names=(), **kw: mgrs[tuple(names)]):
+        sys.stdout = rec
+        try:
+            r = sched.Run(funcs, plan, lambda: None)
+            res = r.run()
+        finally:
+            sys.stdout = real_out
+    texts = []
+    for tag in ('a', 'b'):
+        if case[tag]['out'] == 'stdout':
+            texts.append(rec.getvalue())
+        else:
+            try:
+                with open(paths[tag], encoding='utf-8') as f:
+                    texts.append(f.read())
+            except Exception as e:
+                texts.append('<unreadable: %s>' % type(e).__name__)
+    return texts, [res.get('A'), res.get('B')], r
+
+
+def check_overlap(ctx, case):
+    """Two sample generations in one process at the same time: each sample is what the same generation yields alone."""
+    import shutil
+    from oslo_policy import policy
+    try:
+        expected = []
+        for tag in ('a', 'b'):
+            ds = [build_default(policy, s) for s in case[tag]['specs']]
+            if len({d.name for d in ds}) != len(ds):
+                return
+            expected.append({d.name: d.check_str for d in ds})
+    except Exception:
+        ctx.count('invalid_default_specs')
+        return
+    tmp = tempfile.mkdtemp(prefix='pvsample2-')
+    try:
+        _check_overlap(ctx, case, expected, tmp)
+    finally:
+        shutil.rmtree(tmp, ignore_errors=True)
+
+
+def _check_overlap(ctx, case, expected, tmp):
+    from pv.mon import overlap
+    seq = [['A', None], ['B', None]]
+    alone, how, r = run_pair(case, seq, tmp, 0)
+    ctx.case(['overlap', case['a'], case['b']], True, 'overlap')
+    ctx.count('overlapping_generations')
+    info = {'a': {k: v for k, v in case['a'].items() if k != 'specs'}, 'b': {k: v for k, v in case['b'].items() if k != 'specs'}}
+    for i, tag in enumerate(('a', 'b')):
+        if how[i] != ['returned']:
+            ctx.violation('sample-generator-raises', dict(case, plan=seq), dict(info, generation=tag, observed=how[i]))
+            return
+        before = sum(v[0] for v in ctx.violations.values())
+        judge(ctx, dict(case, plan=seq), case[tag], alone[i], expected[i])
+        if sum(v[0] for v in ctx.violations.values()) != before:
+            return
+    if case.get('plan'):
+        plans = [case['plan']]                      # a replay file names the one schedule that failed
+    else:
+        rnd = ctx.sub_rnd('Og', case['rseed'])
+        na, nb = r.counts['A'], r.counts['B']
+        ctx.observe('overlap_boundaries_of_first_generation', na)
+        plans = []
+        for k in overlap.boundaries(na, OVERLAP_KS[ctx.tier], rnd):
+            j = rnd.randint(1, nb) if nb else None
+            plans.append([['A', k], ['B', None], ['A', None]])
+            if j:
+                plans.append([['A', k], ['B', j], ['A', None], ['B', None]])
+    for n, plan in enumerate(plans):
+        got, how2, r = run_pair(case, plan, tmp, n + 1)
+        ctx.count('overlapping_generations')
+        if len(plan) == 4:
+            ctx.count('overlapping_generations.both_in_flight')
+        if got != alone or how2 != how:
+            bad = [t for i, t in enumerate(('a', 'b')) if got[i] != alone[i] or how2[i] != how[i]]
+            where = r.stopped_at.get('A')
+            ctx.violation(KEY_OVERLAP, dict(case, plan=plan),
+                          dict(info, plan=plan, differing=bad, ended=how2, a_preempted_at=list(where) if where else None,
+                               alone=[t[:400] for t in alone], overlapping=[t[:400] for t in got],
+                               registered=[sorted(e) for e in expected]))
+            return
+
+
+def run_overlap(ctx):
+    from pv.mon import sched
+    ctx.stratum('overlap', exhaustive=False)
+    try:
+        for i in range(OVERLAPS[ctx.tier]):
+            if ctx.expired():
+                break
+            rnd = ctx.sub_rnd('OV', ctx.tier, ctx.shard, i)
+            a, b = gen_generation(rnd), gen_generation(rnd)
+            a['out'], b['out'] = OUTS[(i + ctx.shard) % len(OUTS)]
+            check_overlap(ctx, dict(overlap=True, a=a, b=b, rseed='%s.%d.%d' % (ctx.tier, ctx.shard, i)))
+    finally:
+        sched.uninstall()
+
+
 def run(ctx):
+    ctx.reserve(0.3)          # the overlap stratum comes first and has its own share of the wall budget
+    run_overlap(ctx)
+    ctx.release()
     rnd = ctx.rnd
     for i in range(N[ctx.tier] // ctx.nshards + 1):
         if (i & 0x3f) == 0 and ctx.expired():
@@ -218,4 +384,10 @@ def run(ctx):
 
 
 def replay(ctx, case):
+    if case.get('overlap'):
+        from pv.mon import sched
+        try:
+            return check_overlap(ctx, case)
+        finally:
+            sched.uninstall()
     check_case(ctx, case)
